@@ -21,6 +21,10 @@ echo "$m rc=$? $(( $(date +%s)-start ))s"
 EOS
 chmod +x $T/one.sh
 for i in $(seq -w 1 20); do echo Elfi.Properties.C$i; done | xargs -P 6 -I{} $T/one.sh {} > $V/work/coqchk_par.log 2>&1
+# the admitted file itself, alone: -norec checks the module and loads its dependencies (Flocq, Interval, ...) unchecked
+s0=$(date +%s)
+timeout 3600 coqchk -silent -o -Q . Elfi -norec Elfi.Proofs.C01_Estimator > $V/work/coqchk_C01_norec.out 2>&1
+echo "rc=$? $(( $(date +%s)-s0 ))s" > $V/work/coqchk_C01_norec.res
 {
   echo "# coqchk -o per property module (Coq 8.16.1), run on $(date -u +%Y-%m-%dT%H:%MZ) on a frozen copy of coq/ at /verif commit $(git -C $V rev-parse --short HEAD)"
   echo
@@ -39,6 +43,12 @@ for i in $(seq -w 1 20); do echo Elfi.Properties.C$i; done | xargs -P 6 -I{} $T/
     sed -n '/^\* Axioms/,$p' $f | sed 's/^/    /'
     echo
   done
+  echo "## Elfi.Proofs.C01_Estimator alone: coqchk -norec (the module is checked, its dependencies are loaded unchecked) ($(cat $V/work/coqchk_C01_norec.res))"
+  echo "    Every constant of the file (the finite-domain sweep, the Flocq error analysis, estimator_safe_unbounded[_stops]) is re-checked;"
+  echo "    with the -admit run of C01 above, every file of this development is re-checked by coqchk.  Not re-checked by any run: the"
+  echo "    Debian-packaged libraries Flocq and Interval (and what only they depend on), whose re-check is what takes hours."
+  sed -n '/^\* Constants.Inductives relying on type-in-type/,$p' $V/work/coqchk_C01_norec.out | sed 's/^/    /'
+  echo
   echo "## full coqchk of Elfi.Properties.C01 (without -admit)"
   if [ -f $V/work/coqchk_C01_full.log ]; then sed 's/^/    /' $V/work/coqchk_C01_full.log; else echo "    not finished when this file was written"; fi
 } > $V/COQCHK.md
